@@ -297,6 +297,20 @@ def run_alignfn(ctx) -> RuleResult:
         result.add(Finding("R-ALIGNFN", module, "align_indeterminants", sorts[0] if sorts else func,
                            "the common names are not sorted by int(<suffix>): q10 sorts before q2 (string order) "
                            "and the 'index order' of the statement is lost", construct="common_names sort key"))
+    # align_shape rebuilds exactly the operands whose shape differs from the common shape
+    func = ctx.repo.function(modname, "align_shape")
+    guards = [n for n in ast.walk(func) if isinstance(n, ast.If) and any(isinstance(s, ast.Assign) and isinstance(s.targets[0], ast.Subscript) for s in n.body)]
+    if len(guards) != 1:
+        raise AnalysisError("align_shape: rebuild guard not recognised")
+    test = guards[0].test
+    ok = isinstance(test, ast.Compare) and len(test.ops) == 1 and isinstance(test.ops[0], ast.NotEq) \
+        and isinstance(test.left, ast.Attribute) and test.left.attr == "shape" \
+        and isinstance(test.comparators[0], ast.Attribute) and test.comparators[0].attr == "shape"
+    result.ob("align_shape broadcasts every operand whose shape differs from the common shape", ok, module.loc(test), U(test))
+    if not ok:
+        result.add(Finding("R-ALIGNFN", module, "align_shape", test,
+                           f"the rebuild guard is '{U(test)}', not '<operand>.shape != <common>.shape': an operand of the "
+                           f"common rank but with a length-1 axis is not broadcast", construct="align_shape: guard"))
     # align_polynomials = align_exponents(*align_shape(*polys))
     func = ctx.repo.function(modname, "align_polynomials")
     for path in ctx.paths(module, func):
